@@ -38,9 +38,16 @@ def decide(prop, tier, seed, gdir, units, results, notes, wall):
         vac = [o for o in r['obligations'] if o['kind'] == 'vacuity']
         if not vac or any(o['status'] != 'FAILURE' for o in vac):
             undec.append('%s: vacuity sentinel did not fail: the preconditions are contradictory (or the harness is unreachable)' % r['unit'])
+        u = unit_by_id.get(r['unit'])
         for o in r['obligations']:
             if o['kind'] == 'vacuity':
                 continue
+            if o['kind'] == 'postcondition' and u is not None and hasattr(u, 'spec') and r['function'] in u.spec.funcs:
+                # tags come from the CURRENT spec file (a cached result may predate a re-tagging)
+                cid = o['id'].rsplit('/ensures.', 1)[-1]
+                for c in u.spec.funcs[r['function']].clauses:
+                    if c.kind == 'ensures' and c.id == cid:
+                        o = dict(o, tags=list(c.tags))
             if o['kind'] in ('unwind', 'spec-sanity') and o['status'] != 'SUCCESS':
                 undec.append('%s: %s %s: %s' % (r['unit'], o['kind'], o['status'], o['desc'][:200]))
                 continue
@@ -62,9 +69,13 @@ def decide(prop, tier, seed, gdir, units, results, notes, wall):
     ev = dict(property_id=prop, tier=tier, seed=seed,
               level='other',
               coverage=dict(
-                  explanation='Contract-based deductive verification of the mechanically extracted real code: every listed function is checked against its contract (goto-instrument --dfcc --enforce-contract; CBMC/MiniSat) from an ARBITRARY state satisfying the representation invariant, with symbolic keys, values, clock readings, allow/peek arguments and symbolic capacity in [1,%d] -- unbounded in history length, BOUNDED in capacity (labelled bounded, not counted as proved).' % max(u.maxcap for u in units),
+                  explanation='Contract-based deductive verification of the mechanically extracted real code: every listed function is checked against its contract (goto-instrument --dfcc --enforce-contract; CBMC/MiniSat) from an ARBITRARY state satisfying the representation invariant, with symbolic keys, values, clock readings, allow/peek arguments and symbolic capacity in [1,%d] -- unbounded in history length, BOUNDED in capacity (labelled bounded, not counted as proved).' % max([u.maxcap for u in units if u.maxcap] or [0]),
                   obligations=len(obls), discharged=len(obls) - len(refuted),
                   functions_under_contract=sorted(set(notes['functions'])),
+                  unbounded_capacity=dict(
+                      note='route U: obligations discharged for EVERY capacity (symbolic capacity, infinite node pools, cbmc --z3); all other obligations are bounded in capacity',
+                      obligations=sum(1 for o in obls if '/U/' in o['id']), discharged=sum(1 for o in obls if '/U/' in o['id'] and o['status'] == 'SUCCESS'),
+                      functions=sorted(set(o['function'] for o in obls if '/U/' in o['id']))),
                   containers=notes['containers'],
                   backend='cbmc 6.11.0 --dfcc, MiniSat (SAT), capacity bound per unit in the obligation id (B<n>)',
                   solver_seconds=round(sum(r.get('solver_s', 0) or 0 for r in results), 1),
@@ -75,7 +86,7 @@ def decide(prop, tier, seed, gdir, units, results, notes, wall):
                   cosim_undefined_behaviour=[dict(container=u['container'], how=u['how']) for u in cosd.get('ub', [])],
                   samples=[dict(id=o['id'], status=o['status'], kind=o['kind'], expr=o.get('expr', o['desc'])[:200]) for o in (refuted[:5] + [x for x in obls if x['kind'] == 'postcondition'][:12])],
                   undecided=undec),
-              assumptions=scan_assumptions() + ['bounded stand-in: capacity <= %d in these obligations' % max(u.maxcap for u in units)],
+              assumptions=scan_assumptions() + ['bounded stand-in: capacity <= %d in these obligations' % max([u.maxcap for u in units if u.maxcap] or [0])],
               wall_s=round(wall, 1), violations=len(viol))
     os.makedirs(os.path.join(engine.VERIF, 'evidence'), exist_ok=True)
     json.dump(ev, open(os.path.join(engine.VERIF, 'evidence', prop + '.json'), 'w'), indent=1)
